@@ -1,7 +1,190 @@
+/-
+C15 — Every supported prediction format is understood the same way.
+Property theorems only (helper lemmas live in `Lemmas/C15.lean`; the model and the spec in `Model/C15.lean`).
+
+Reading of the statement.  A learner "using one documented format consistently" is `scripted sp pol`:
+`sp` fixes the format (`A | AP | PM | dA | dAP | dPM`), whether a kwargs mapping follows, and how a batch is answered
+(`row`-major, `col`umn-major, or `single` = the learner raises on a batch); `pol : context → offered actions → Answer`
+is ANY function saying which offered action it names, which probability / PMF it states and which kwargs it gives.
+`wantSingle` / `wantBatch` say what the evaluator must then receive.  `Fixes.all` is the code with the proposed repairs
+`fixes/C15-*.diff`, `Fixes.none` the pinned commit; the side conditions (`firstRowOK`, `Unambiguous`, all decidable) are
+the property's own "offered action objects themselves, or explicit hints where a value could be read two ways", plus -
+for flags that are off - the regions of the recorded defects C15-F1…F4.
+-/
 import CobaVerif.Lemmas.C15
 
 namespace Coba.C15
 
-theorem fixes_all_short : Fixes.all.short = true := fixes_all_short'
+/-- **format_roundtrip, unbatched calls.**  For every format, with or without kwargs, every policy, every offered action
+set and every state the SafeLearner can be in: `predict` returns exactly the action the learner named (an offered
+object), the probability it stated (`None` for a bare action; for a PMF the draw of `CobaRandom.choicew` from the
+SafeLearner's generator and the PMF's own entry for it), and the kwargs object it gave; the detection is memoised. -/
+theorem format_roundtrip_single (fx : Fixes) (sp : Spec) (pol : Policy) (st : State) (c : PyVal) (as : List PyVal)
+    (hinv : Inv sp false st)
+    (hfirst : st.layout = Option.none → firstRowOK fx sp (pol c as) as = true) :
+    predictCore fx (scripted sp pol) st (.single c as) =
+      (wantSingle sp st.rng (pol c as) as).map (fun x => (x.1, stAfter sp false st x.2)) :=
+  format_roundtrip_single' fx sp pol st c as hinv hfirst
+
+/-- **format_roundtrip, batched calls** (row-major, column-major, and learners that cannot handle batches - these are
+called per row): per row the named action, the stated probability (or the PMF draws made row after row from the one
+generator), and per kwargs key the rows' values in order. -/
+theorem format_roundtrip_batch (fx : Fixes) (sp : Spec) (pol : Policy) (st : State) (cs : List PyVal) (rows : List (List PyVal))
+    (hinv : Inv sp true st) (hlen : cs.length = rows.length) (hne : rows ≠ [])
+    (hU : Unambiguous fx sp st (rowsOf pol cs rows) = true) :
+    Delivers (predictCore fx (scripted sp pol) st (.batch cs rows)) (wantBatch sp st.rng (rowsOf pol cs rows))
+      (stAfter sp true st) :=
+  format_roundtrip_batch' fx sp pol st cs rows hinv hlen hne hU
+
+/-- the same two theorems read for the repaired code: all defect regions are gone from the side conditions -/
+theorem format_roundtrip (sp : Spec) (pol : Policy) (st : State) (cs : List PyVal) (rows : List (List PyVal))
+    (hinv : Inv sp true st) (hlen : cs.length = rows.length) (hne : rows ≠ [])
+    (hU : Unambiguous Fixes.all sp st (rowsOf pol cs rows) = true) :
+    Delivers (predictCore Fixes.all (scripted sp pol) st (.batch cs rows)) (wantBatch sp st.rng (rowsOf pol cs rows))
+      (stAfter sp true st) :=
+  format_roundtrip_batch' Fixes.all sp pol st cs rows hinv hlen hne hU
+
+/-- … and for the pinned commit: the same claim holds outside the regions of the recorded defects (the `fx.… = false`
+disjuncts of `firstRowOK`, `dictRowsOK`, `colParseOK`); the `_counterexample` theorems below show each is necessary. -/
+theorem format_roundtrip_pinned_partial (sp : Spec) (pol : Policy) (st : State) (cs : List PyVal) (rows : List (List PyVal))
+    (hinv : Inv sp true st) (hlen : cs.length = rows.length) (hne : rows ≠ [])
+    (hU : Unambiguous Fixes.none sp st (rowsOf pol cs rows) = true) :
+    Delivers (predictCore Fixes.none (scripted sp pol) st (.batch cs rows)) (wantBatch sp st.rng (rowsOf pol cs rows))
+      (stAfter sp true st) :=
+  format_roundtrip_batch' Fixes.none sp pol st cs rows hinv hlen hne hU
+
+/-- the hypotheses are satisfiable: a column-major (action, prob) learner with kwargs on a 2-row batch of 0/1 actions -/
+example : Unambiguous Fixes.all { fmt := .AP, kw := true, layout := .col } (initState 1)
+    (rowsOf (exPol (fun i => i) (fun _ => 0) 2) (ctxs 2) [[.flt (.safe 0) 0, .flt (.safe 1) 1], [.flt (.safe 4096) 0, .flt (.safe 4097) 1]]) = true := by decide
+
+/-- `predict` is the float-copy step followed by the core the theorems above are about -/
+theorem predict_prepare (fx : Fixes) (L : Learner) (st : State) (arg : Arg) :
+    predict fx L st arg = predictCore fx L (prepare fx st arg).1 (prepare fx st arg).2 :=
+  predict_prepare' fx L st arg
+
+/-- the memoised detection is an invariant of the evaluation: it holds initially, the float-copy step keeps it, every
+answered call re-establishes it (so the per-call theorems chain over any history of calls) -/
+theorem inv_preserved (fx : Fixes) (sp : Spec) (b : Bool) (st : State) (arg : Arg) (s : Nat) :
+    Inv sp b (initState 1) ∧ (Inv sp b st → Inv sp b (prepare fx st arg).1) ∧ Inv sp b (stAfter sp b st s) :=
+  ⟨Or.inl ⟨rfl, rfl⟩, inv_prepare' fx sp b st arg, inv_stAfter' sp b st s⟩
+
+/-- on a fresh SafeLearner the learner is given the float copies (each row of a batch, in the repaired code) -/
+theorem prepare_given (st : State) (arg : Arg) (h : st.prev = Option.none) :
+    (prepare Fixes.all st arg).2 =
+      (match arg with
+       | .single c as => .single c (safeRow 0 as)
+       | .batch cs rows => .batch cs (mapIdxFrom safeRow 0 rows)) :=
+  prepare_given' st arg h
+
+/-- "an action that is one of the offered actions": the learner is given, position by position, the offered object
+itself or a float equal to it, and never the int 0, the int 1 or a bool -/
+theorem safe_actions_equal (r : Nat) (as : List PyVal) :
+    List.Forall₂ (fun s a => s = a ∨ pyEq s a = true) (safeRow r as) as ∧
+    ∀ a ∈ safeRow r as, a ≠ .int 0 ∧ a ≠ .int 1 ∧ ∀ b, a ≠ .bool b :=
+  ⟨safeRow_values' r as, safeRow_no01' r as⟩
+
+/-- hence the entries of a PMF built by the learner (fresh floats, or the interned ints 0/1) are none of the objects it
+was given: the two-action side condition of `firstRowOK` holds by construction once the copies are made -/
+theorem pmf_entry_fresh (x : PyVal) (as : List PyVal)
+    (hx : (∃ k q, x = .flt (.lrn k) q) ∨ x = .int 0 ∨ x = .int 1)
+    (hsafe : ∀ a ∈ as, a ≠ .int 0 ∧ a ≠ .int 1) (hl : ∀ a ∈ as, isLrn a = false) :
+    as.any (fun a => pyIs x a) = false :=
+  pmf_entry_fresh' x as hx hsafe hl
+
+/-- **pmf_prob_reported.**  A PMF over the offered actions is sampled with one uniform of the SafeLearner's generator
+(C05); the action returned is offered, the probability returned is exactly the PMF's entry for it, and it is positive. -/
+theorem pmf_prob_reported (s : Nat) (as pmf : List PyVal) (v : PyVal) (hv : v.items = some pmf)
+    (hp : validPmf pmf as = true) :
+    ∃ (i : Nat) (a p : PyVal) (q : Rat), choicew s as v = .ok (Coba.C05.next s, a, p) ∧ as[i]? = some a ∧ pmf[i]? = some p ∧
+      p.num = some q ∧ 0 < q :=
+  pmf_prob_reported' s as pmf v hv hp
+
+/-- **ambiguity_characterised.**  Which un-hinted two-item answers are read as (action, prob): exactly those whose first
+item IS one of the objects the learner was given - whatever the learner meant (a two-action PMF built from offered float
+objects, a two-feature action starting with another offered action, …).  This is a design limit, not a defect: such
+answers need the dict hints. -/
+theorem ambiguity_characterised (fx : Fixes) (v x y : PyVal) (as : List PyVal) (hv : v.items = some [x, y]) (hne : as ≠ []) :
+    predFormat fx v (some as) = .ok ⟨.AP, false⟩ ↔ as.any (fun a => pyIs x a) = true :=
+  ambiguity_two_items' fx v x y as hv hne
+
+/-- **kwargs_unchanged** (unbatched calls and learners that take batches): `learn` is called once with exactly the
+kwargs object `predict` returned, next to the action, the probability and the reward. -/
+theorem kwargs_unchanged (arg : Arg) (r : Result) (reward : PyVal) (ks : List String) (vs : List PyVal) (ref : Ref)
+    (hk : r.kw = .dict ref ks vs) :
+    (∀ c as, arg = .single c as → learn true arg r reward = .ok [⟨c, r.a, reward, r.p, ks, vs⟩] ∧
+                                   learn false arg r reward = .ok [⟨c, r.a, reward, r.p, ks, vs⟩]) ∧
+    (∀ cs rows, arg = .batch cs rows → learn true arg r reward = .ok [⟨.list .tmp cs, r.a, reward, r.p, ks, vs⟩]) :=
+  learn_kwargs_whole' arg r reward ks vs ref hk
+
+/-- **kwargs_unchanged, per-row learners**: row j is given its context, action, reward, probability and the j-th entry
+of every kwargs column (`format_roundtrip_batch`: that is the value the learner gave for row j under that key). -/
+theorem kwargs_unchanged_per_row (ks : List String) (cols : List (List PyVal)) (ref : Ref) (cs A R P : List PyVal)
+    (hc : ∀ c ∈ cols, cs.length ≤ c.length) (hA : A.length = cs.length) (hR : R.length = cs.length) (hP : P.length = cs.length) :
+    ∃ calls, learnRows 0 cs A R P ks (cols.map (fun c => PyVal.list ref c)) = .ok calls ∧ calls.length = cs.length ∧
+      ∀ (j : Nat) (call : LearnCall), calls[j]? = some call →
+        call.kwKeys = ks ∧ call.kwVals = cols.map (fun c => c.getD (0 + j) .none) ∧
+        cs[j]? = some call.ctx ∧ A[j]? = some call.action ∧ R[j]? = some call.reward ∧ P[j]? = some call.prob :=
+  learnRows_kwargs' ks cols ref 0 cs A R P (by simpa using hc) hA hR hP
+
+/-- **fallback_equiv.**  A learner that cannot handle batches is called exactly once per row, in order (after the one
+batch attempt of the first call), and - `wantBatch` does not depend on the layout - the evaluator receives what it
+would receive from the same learner answering the batch row-major. -/
+theorem fallback_equiv (fx : Fixes) (sp : Spec) (pol : Policy) (m : Option Nat) (cs : List PyVal) (rows : List (List PyVal))
+    (hlay : sp.layout = .single) (hm : m = Option.none ∨ m = some 2) (s : Nat) (R : Rows) :
+    (safeCallTrace fx (scripted sp pol) m (.batch cs rows)).filter (fun a => !isBatchArg a) = perRowArgs cs rows ∧
+    wantBatch { sp with layout := .row } s R = wantBatch sp s R :=
+  ⟨perrow_calls' fx sp pol m cs rows hlay hm, wantBatch_layout' sp .row s R⟩
+
+/-! ### the recorded defects of the pinned commit (each replayed on the real code by the harness) and their repair -/
+
+/-- C15-F1a: an un-hinted bare action that is a sparse dict with two features raises KeyError -/
+theorem pinned_short_dict_counterexample :
+    errOf (predict Fixes.none (scripted { fmt := .A, kw := false, layout := .single } (exPol (fun _ => 0) (fun _ => 0) 2)) (initState 1)
+      (.single (.int 0) [exD2 2 1, exD2 3 2])) = some .key := pinned_short_dict_counterexample'
+
+/-- C15-F1b: an un-hinted bare action that is a one-item tuple raises CobaException -/
+theorem pinned_short_tuple_counterexample :
+    errOf (predict Fixes.none (scripted { fmt := .A, kw := false, layout := .single } (exPol (fun _ => 0) (fun _ => 0) 2)) (initState 1)
+      (.single (.int 0) [.tuple (.ext 1) [.int 5], .tuple (.ext 2) [.int 6]])) = some .coba := pinned_short_tuple_counterexample'
+
+/-- C15-F2: batched 0/1 actions get no float copies, so the PMFs [0,1],[1,0] are read as (action, prob) … -/
+theorem pinned_batched01_counterexample :
+    numsOf (predict Fixes.none (scripted { fmt := .PM, kw := false, layout := .row } (exPol (fun _ => 0) (fun i => 1 - i) 2)) (initState 1)
+      (.batch (ctxs 2) [[.int 0, .int 1], [.int 0, .int 1]])) = some ([some 0, some 1], [some 1, some 0]) := pinned_batched01_counterexample'
+
+/-- … while the repaired code draws actions 1 and 0 with probability 1 each -/
+theorem fixed_batched01 :
+    numsOf (predict Fixes.all (scripted { fmt := .PM, kw := false, layout := .row } (exPol (fun _ => 0) (fun i => 1 - i) 2)) (initState 1)
+      (.batch (ctxs 2) [[.int 0, .int 1], [.int 0, .int 1]])) = some ([some 1, some 0], [some 1, some 1]) := fixed_batched01'
+
+/-- C15-F3a: column-major bare actions with kwargs come back as ONE "action" (the wrapped column) … -/
+theorem pinned_colA_counterexample :
+    lensOf (predict Fixes.none (scripted { fmt := .A, kw := true, layout := .col } (exPol (fun i => i) (fun _ => 0) 2)) (initState 1)
+      (.batch (ctxs 2) [[exStr 1 "aa", exStr 2 "bb"], [exStr 1 "aa", exStr 2 "bb"]])) = some (1, 1) := pinned_colA_counterexample'
+
+theorem fixed_colA :
+    lensOf (predict Fixes.all (scripted { fmt := .A, kw := true, layout := .col } (exPol (fun i => i) (fun _ => 0) 2)) (initState 1)
+      (.batch (ctxs 2) [[exStr 1 "aa", exStr 2 "bb"], [exStr 1 "aa", exStr 2 "bb"]])) = some (2, 2) := fixed_colA'
+
+/-- C15-F3c: column-major PMFs on a non-square batch raise ValueError -/
+theorem pinned_colPM_counterexample :
+    errOf (predict Fixes.none (scripted { fmt := .PM, kw := false, layout := .col } (exPol (fun _ => 0) (fun i => 2 * i) 3)) (initState 1)
+      (.batch (ctxs 2) [[exStr 1 "aa", exStr 2 "bb", exStr 3 "cc"], [exStr 1 "aa", exStr 2 "bb", exStr 3 "cc"]])) = some .value :=
+  pinned_colPM_counterexample'
+
+/-- C15-F3e: a column-major hinted answer followed by kwargs raises AttributeError -/
+theorem pinned_colHintKw_counterexample :
+    errOf (predict Fixes.none (scripted { fmt := .dA, kw := true, layout := .col } (exPol (fun i => i) (fun _ => 0) 2)) (initState 1)
+      (.batch (ctxs 2) [[exStr 1 "aa", exStr 2 "bb"], [exStr 1 "aa", exStr 2 "bb"]])) = some .attr := pinned_colHintKw_counterexample'
+
+/-- C15-F4: row-major bare sparse actions with different feature names raise CobaException … -/
+theorem pinned_sparseRows_counterexample :
+    errOf (predict Fixes.none (scripted { fmt := .A, kw := false, layout := .row } (exPol (fun i => i) (fun _ => 0) 2)) (initState 1)
+      (.batch (ctxs 2) [[exSparse "f0" 1, exSparse "f1" 2], [exSparse "f0" 1, exSparse "f1" 2]])) = some .coba :=
+  pinned_sparseRows_counterexample'
+
+theorem fixed_sparseRows :
+    lensOf (predict Fixes.all (scripted { fmt := .A, kw := false, layout := .row } (exPol (fun i => i) (fun _ => 0) 2)) (initState 1)
+      (.batch (ctxs 2) [[exSparse "f0" 1, exSparse "f1" 2], [exSparse "f0" 1, exSparse "f1" 2]])) = some (2, 2) := fixed_sparseRows'
 
 end Coba.C15
